@@ -28,6 +28,8 @@ PAIRS = {
     "d3": dict(short_flags="", short_args="", env=[]),
     "d4": dict(short_flags="q", short_args="s", env=["VERIF_D4"]),
     "d5": dict(short_flags="lz", short_args="t", env=[]),
+    "d6": dict(short_flags="", short_args="", env=[]),
+    "d7": dict(short_flags="", short_args="", env=[]),
 }
 
 
@@ -160,7 +162,7 @@ def make_jobs(tier, seed, build):
     for name, cfg in PAIRS.items():
         jobs.append({"id": "meta:%s" % name, "kind": "meta", "pair": name})
         decl = tok.Decl(cfg["short_flags"] + "hV", cfg["short_args"])
-        for shape in tok.all_shapes_by_words(nmax, decl):
+        for shape in tok.all_shapes_by_words(nmax, decl, full_upto=3):
             jobs.append({"id": "run:%s:%s" % (name, ",".join(shape)), "kind": "run", "pair": name, "shape": shape})
     return jobs
 
@@ -208,7 +210,7 @@ def finish(results, jobs, build, out, tier, seed, wall):
         "queries": {"total": st["queries"], "sat": st["sat"], "unsat": st["unsat"], "unknown": st["unknown"]},
         "solver_time_s": st["solver_s"],
         "outcome_classes": fw.merge_counts(results, "classes"),
-        "bounds": {"argv_words": "0..=%d" % nmax, "pairs": sorted(PAIRS), "derive_rules": "named bool/Option/Vec/plain, kebab-case, single-letter, unnamed fields, unit/struct/command variants, short/long/argument/fallback/env/positional/version annotations, doc comments"},
+        "bounds": {"largest_size": (tok.REDUCED_NOTE if tier != "quick" else "all forms"), "argv_words": "0..=%d" % nmax, "pairs": sorted(PAIRS), "derive_rules": "named bool/Option/Vec/plain, kebab-case, single-letter, unnamed fields, unit/struct/command variants, short/long/argument/fallback/env/positional/version annotations, doc comments"},
         "jobs": len(jobs),
         "functions_encoded": sorted(fw.merge_counts(results, "fn_hits")),
         "models_used": fw.merge_counts(results, "models_used"),
